@@ -10,7 +10,8 @@ ID = "C03"
 MODULE = "HttpcoreModel.Props.C03"
 THEOREMS = [f"Httpcore.C03.{n}" for n in (
     "reject_writes_nothing", "head_written_first", "host_first", "others_in_order", "cl_body_exact", "cl_mismatch_detected",
-    "chunked_roundtrip", "empty_chunk_writes_nothing", "defaults_only_if_missing", "h2_mapping", "h2_needs_host")]
+    "chunked_roundtrip", "empty_chunk_writes_nothing", "defaults_only_if_missing", "h2_mapping", "h2_needs_host",
+    "h2_validation_on", "h2_illegal_rejected", "h2_legal_handed", "h2_refuses_te", "h2_refuses_empty_path", "h2_refuses_custom_pseudo")]
 TRUSTED = [
     "Lean 4.33 kernel; axioms per theorem under coverage.theorems",
     "hand-written model of h11 0.14's request validation / writers and of http2.py's header mapping (H1Write), tied by this run's differential",
@@ -91,6 +92,28 @@ def gen_request(rng, malformed_rate=0.15):
         else:
             hs.append((b"Transfer-Encoding", rng.choice([b"gzip", b"chunked, gzip"])))
     r["headers"] = hs
+    return r
+
+
+H2_SPECIAL = [(b"TE", b"gzip"), (b"te", b"trailers"), (b"Te", b" Trailers"), (b"te", b"trailers, deflate"), (b"TE", b""), (b":foo", b"1"),
+              (b":status", b"200"), (b":path", b"/other"), (b":Method", b"GET"), (b":protocol", b"websocket"), (b" Host", b"other.example"),
+              (b"Connection", b"keep-alive"), (b"Upgrade", b"h2c"), (b"Keep-Alive", b"timeout=5"), (b"Proxy-Connection", b"keep-alive"),
+              (b"X-Ok", b"1")]
+H2_CONNECTION_SPECIFIC = (b"connection", b"proxy-connection", b"keep-alive", b"transfer-encoding", b"upgrade")
+
+
+def h2_special(rng, r):
+    """heads that are legal for HTTP/1.1 or at least reach h2, but that RFC 7540 s8.1.2 / RFC 9113 s8.3-8.5 constrain over HTTP/2"""
+    r = dict(r, headers=list(r["headers"]))
+    what = rng.randrange(8)
+    if what == 0:
+        r["method"] = b"CONNECT"
+    elif what == 1:
+        r["target_ext"] = b""
+    else:
+        r["headers"].insert(rng.randint(0, len(r["headers"])), rng.choice(H2_SPECIAL))
+        if rng.random() < 0.15:
+            r["method"] = b"CONNECT"
     return r
 
 
@@ -399,6 +422,7 @@ def run(ctx, driver):
     # ---------------- HTTP/2 -------------------------------------------------------------------
     n2 = 300 if ctx.quick else 4000
     groups2 = [[gen_request(rng, malformed_rate=0.1) for _ in range(rng.choice([1, 2, 3]))] for _ in range(n2)]
+    groups2 = [[h2_special(rng, r) if rng.random() < 0.2 else r for r in g] for g in groups2]
     # corpus (runs on every seed): a request h2 rejects while encoding it, between two requests whose headers share HPACK entries
     groups2.insert(0, [
         {"method": b"POST", "url": b"http://example.com/a", "target_ext": None, "kind": "bytes", "chunks": [b"x"],
@@ -433,6 +457,17 @@ def run(ctx, driver):
             payload = {"property": ID, "proto": "h2", "request": {k: repr(v)[:300] for k, v in r.items()}, "outcome": o["outcome"],
                        "server_saw": repr(o["streams"])[:800], "server_window": win, "group": repr(g)}
             fails = []
+            mk = core.kv(ans) if (ans and not ans.startswith(("err=", "empty", "bad-args"))) else {}
+            verdict, illegal = mk.get("h2"), mk.get("illegal") == "1"
+            dist["h2:model-verdict:" + str(verdict) + (":illegal-head" if illegal else "")] += 1
+            refused = o["outcome"].startswith("error:LocalProtocolError")
+            if illegal and verdict != "crash" and not (refused and not o["streams"]):
+                # the property itself: the head cannot legally be encoded for HTTP/2 (RFC 7540 s8.1.2 rules as h2 enforces them), yet it
+                # was not refused
+                fails.append(("h2-illegal-head-not-rejected", {"outcome": o["outcome"].split(":")[0]}))
+            if verdict in ("sent", "rejected") and (verdict == "rejected") != refused and len(disagreements) < 10:
+                # correspondence: the model (with the regenerated h2 configuration) and the implementation disagree on whether h2 refuses
+                disagreements.append(dict(payload, why="model and implementation disagree on whether the head is refused", model=ans[:400]))
             if o["outcome"].startswith("error:LocalProtocolError"):
                 if o["streams"]:
                     fails.append(("rejected-but-written", {}))
@@ -448,7 +483,10 @@ def run(ctx, driver):
                     if st["headers"] != want:
                         ws = b" \t\r\n\x0b\x0c"
                         stripped = [(n.strip(ws), v.strip(ws)) for n, v in want]
-                        fails.append(("h2-headers", {"class": "surrounding-whitespace-stripped" if st["headers"] == stripped else "other"}))
+                        kept = [(n, v) for n, v in stripped if n not in H2_CONNECTION_SPECIFIC]
+                        cls_ = ("surrounding-whitespace-stripped" if st["headers"] == stripped else
+                                "connection-specific-header-dropped" if st["headers"] == kept else "other")
+                        fails.append(("h2-headers", {"class": cls_}))
                     has_body_hdr = b"content-length" in lows or b"transfer-encoding" in lows
                     want_body = b"".join(r["chunks"]) if has_body_hdr else b""
                     if b"".join(st["data"]) != want_body:
